@@ -1019,11 +1019,14 @@ class GraphWorld(BaseWorld):
         where = f'remove_attacker({s.ref.attackers[k].name!r}, reached {n_reached} nodes)'
         if o.raised:
             self.fail('C09.must_not_raise', f'{where} raised {o.exc!r}')
-        self.count('oracle:C11.removed')
-        for n in s.g.nodes:
-            if any(x is att for x in n.compromised_by):
-                self.fail('C11.removed', f'{where}: node {n.full_name} is still compromised by '
-                                         f'the removed attacker')
+        if 'C11' in self.armed:
+            # (for the other checks the same condition is reported by their own family:
+            # C09.attackers "every attacker referenced by a node is in the graph")
+            self.count('oracle:C11.removed')
+            for n in s.g.nodes:
+                if any(x is att for x in n.compromised_by):
+                    self.fail('C11.removed', f'{where}: node {n.full_name} is still compromised by '
+                                             f'the removed attacker')
         s.ref.remove_attacker(k)
         del s.amap[k]
         s.surface.pop(k, None)
